@@ -22,6 +22,7 @@ def checkLine (line : String) : String × String × Verdict :=
         | "rat" => checkRat op args r
         | "qi" => checkQI "qi" op args r
         | "di" => checkQI "di" op args r
+        | "vi" => checkVI op args r
         | "fsi" => checkFSI op args r
         | "fset" => checkFSet op args r
         | "hset" => checkHSet args r
